@@ -313,16 +313,20 @@ def c_atstol(interp, st, args, kw):
     return VTuple(["f0-of", args[0].attrs["key"]])
 
 
+OMITTED = "omitted"
+
+
 def _fx_unit(symbol, charge):
     def mk(st, interp):
-        return [symbol, z3.Real("stol"), charge], {}, {}
+        # `charge` left out by the caller: the documented default is "take the charge from the symbol's own suffix"
+        return ([symbol, z3.Real("stol")] if charge == OMITTED else [symbol, z3.Real("stol"), charge]), {}, {}
 
     def post(st, interp, C, res):
         if res.outcome == "raise":
             st.oblige("never-raises", False, kind="raises", info={"exc": res.exc})
             return
         base = symbol.rstrip("0123456789+-")
-        if charge is None:
+        if charge is None or charge == OMITTED:
             tail = symbol[len(base):]
             want = base + ("1" + tail if tail in ("+", "-") else tail)
         elif charge == 0:
@@ -337,7 +341,7 @@ def _fx_unit(symbol, charge):
                 replay={"module": "c05", "task": "replay"})
 
 
-U_FXRAY_KEYS = [_fx_unit(s, q) for s in ("Fe", "O", "Cl-", "Ca2+", "H") for q in (None, 0, 1, 2, -1, -2, 3)]
+U_FXRAY_KEYS = [_fx_unit(s, q) for s in ("Fe", "O", "Cl-", "Ca2+", "H") for q in (None, OMITTED, 0, 1, 2, -1, -2, 3)]
 
 
 # ------------------------------------------------------------------------------ cromermann.fxrayatq, Xray.f0, Xray.sld, Xray._element_symbol
